@@ -593,11 +593,18 @@ type tally struct {
 	perShape                                              map[string]int
 	polled                                                int
 	pollOK                                                bool
+	sessSteps, sessBoundary, sessions                     int
+	sessOK                                                bool
+}
+
+type hcPair struct {
+	p, u int
+	what string
 }
 
 func experiment(c *core.Ctx) {
 	batches := c.N(1, 10)
-	t := &tally{firstOK: true, skelOK: true, critOK: true, skelCritOK: true, pollOK: true, perShape: map[string]int{}}
+	t := &tally{firstOK: true, skelOK: true, critOK: true, skelCritOK: true, pollOK: true, sessOK: true, perShape: map[string]int{}}
 	for bi := 0; bi < batches; bi++ {
 		if !oneBatch(c, t, bi, c.N(70, 250), c.N(230, 900)) {
 			return
@@ -610,6 +617,10 @@ func experiment(c *core.Ctx) {
 	c.Oblige("correspondence", fmt.Sprintf("rendering: at most 3%% of the generated cases are rejected by the Go compiler (%d of %d)", t.dropped, t.generated), t.dropped*100 <= 3*t.generated, "")
 	c.Oblige("correspondence", "rendering: the event handler accepts every template the parser accepts", t.unformattable == 0, fmt.Sprint(t.unformattable, " rejected"))
 	c.Oblige("correspondence", fmt.Sprintf("schedule: programs rendering every 2-20 ms from before a text-only edit until 1.25 s after it end up rendering like a fresh build (%d templates)", t.polled), t.pollOK, "")
+	c.Oblige("correspondence", fmt.Sprintf("session: after every step of every watch session the program compiled at the handler's last recompile request, reading the text file on disk, renders like a fresh build of the current version (%d steps of %d sessions, 3 valuations each)", t.sessSteps, t.sessions), t.sessOK, "")
+	c.Oblige("side-condition", fmt.Sprintf("session: the generators produced at least 20 edits that move literal boundaries, leave the concatenated text unchanged and are answered text-only (%d)", t.sessBoundary), t.sessBoundary >= 20, "")
+	c.Extra["session_steps"] = t.sessSteps
+	c.Extra["session_steps_moving_literal_boundaries_only"] = t.sessBoundary
 	c.Extra["text_only_chains"] = t.textOnly
 	c.Extra["text_only_chains_rendering_differently_by_shape"] = t.perShape
 	c.Extra["text_only_chains_with_changed_skeleton"] = t.textOnlyChanged
@@ -628,7 +639,8 @@ func oneBatch(c *core.Ctx, t *tally, bi, nPlain, nChains int) bool {
 	tmp, _ = filepath.EvalSymlinks(tmp)
 	rootA, rootB, rootP := filepath.Join(tmp, "rootA"), filepath.Join(tmp, "rootB"), filepath.Join(tmp, "rootP")
 	const rootR = "rootR" // relative TEMPL_DEV_MODE_ROOT, resolved against the working directory tmp
-	for _, d := range []string{"a", "b", "real_al", "real_bl", "shared", "rootA", "rootB", "rootR", "rootP"} {
+	rootS := filepath.Join(tmp, "rootS") // the one root of the watch sessions
+	for _, d := range []string{"a", "b", "real_al", "real_bl", "shared", "rootA", "rootB", "rootR", "rootP", "rootS"} {
 		os.MkdirAll(filepath.Join(tmp, d), 0o755)
 	}
 	// package directories that are symbolic links
@@ -672,9 +684,11 @@ func oneBatch(c *core.Ctx, t *tally, bi, nPlain, nChains int) bool {
 	}
 
 	// the helper components are not edited: their text files serve both roots
+	var helperFiles []string
 	if ents, err := os.ReadDir(rootA); err == nil {
 		for _, e := range ents {
 			if b, err := os.ReadFile(filepath.Join(rootA, e.Name())); err == nil {
+				helperFiles = append(helperFiles, filepath.Join(rootA, e.Name()))
 				os.WriteFile(filepath.Join(rootB, e.Name()), b, 0o644)
 				os.WriteFile(filepath.Join(tmp, rootR, e.Name()), b, 0o644)
 			}
@@ -684,10 +698,6 @@ func oneBatch(c *core.Ctx, t *tally, bi, nPlain, nChains int) bool {
 	cases := buildCases(c, bi == 0, nPlain, nChains)
 	handlerOK, fileOK := true, true
 	var gens []*genRec
-	type hcPair struct {
-		p, u int
-		what string
-	}
 	var hcPairs []hcPair
 	var lkReq []drv.Req
 	var lkWant, lkSrc []string
@@ -807,6 +817,10 @@ func oneBatch(c *core.Ctx, t *tally, bi, nPlain, nChains int) bool {
 		}
 	}
 
+	// watch sessions: all events through the same handler, one root, interleaved
+	sessions := buildSessions(c, bi == 0, c.N(40, 120))
+	sessOrder := runSessions(c, t, sessions, handle, tmp, rootS, rootA, &gens, &hcPairs)
+
 	// decision: model has_changed = generator.HasChanged, plus option perturbations
 	{
 		base := "package a\n\ntempl X(" + params + ") {\n\t<p>{ s }</p>\n}\n"
@@ -908,6 +922,8 @@ func oneBatch(c *core.Ctx, t *tally, bi, nPlain, nChains int) bool {
 		c.Oblige("correspondence", "skeleton: generator.HasChanged answers true for outputs that differ in the Skeleton field only", usedOK && fieldOK, "")
 	}
 
+	sessionModel(c, sessions, sessOrder, gens)
+
 	hcReq := make([]drv.Req, len(hcPairs))
 	hcImpl := make([]bool, len(hcPairs))
 	hcOld := make([]bool, len(hcPairs))
@@ -982,6 +998,14 @@ func oneBatch(c *core.Ctx, t *tally, bi, nPlain, nChains int) bool {
 				}
 			}
 		}
+		for _, s := range sessions {
+			if s.ok && !s.dropped {
+				ra = append(ra, fmt.Sprintf("\t%q: a.%s,\n", s.name, s.name))
+				for _, v := range s.vers[1:] {
+					rb = append(rb, fmt.Sprintf("\t%q: b.%s,\n", v.nameB, v.nameB))
+				}
+			}
+		}
 		reg := "package main\n\nimport (\n\t\"c16scratch/a\"\n\t\"c16scratch/al\"\n\t\"c16scratch/b\"\n\t\"c16scratch/bl\"\n)\n\nvar _, _, _, _ = a.K, b.K, al.K, bl.K\n\nvar regA = map[string]fn{\n" + strings.Join(ra, "") + "}\n\nvar regB = map[string]fn{\n" + strings.Join(rb, "") + "}\n"
 		os.WriteFile(filepath.Join(tmp, "main.go"), []byte(mainSrc), 0o644)
 		os.WriteFile(filepath.Join(tmp, "reg.go"), []byte(reg), 0o644)
@@ -1001,8 +1025,19 @@ func oneBatch(c *core.Ctx, t *tally, bi, nPlain, nChains int) bool {
 		for _, m := range regexp.MustCompile(`[ab]l?/(t\d+)_templ\.go`).FindAllStringSubmatch(buildErr, -1) {
 			bad[strings.ToUpper(m[1])] = true
 		}
-		if len(bad) == 0 {
+		badS := map[string]bool{}
+		for _, m := range regexp.MustCompile(`[ab]/(s\d+)(?:_\d+)?_templ\.go`).FindAllStringSubmatch(buildErr, -1) {
+			badS[strings.ToUpper(m[1])] = true
+		}
+		if len(bad) == 0 && len(badS) == 0 {
 			break
+		}
+		for _, s := range sessions {
+			if badS[s.name] && !s.dropped {
+				s.dropped = true
+				c.Hist("session: generated code rejected by the Go compiler (dropped)")
+				removeSession(tmp, s)
+			}
 		}
 		for _, tc := range cases {
 			if bad[tc.name] {
@@ -1057,6 +1092,9 @@ func oneBatch(c *core.Ctx, t *tally, bi, nPlain, nChains int) bool {
 	}
 
 	if !pollSchedule(c, t, tmp, prog, rootA, rootB, rootP, cases, nA, nB, devEnv) {
+		return false
+	}
+	if !judgeSessions(c, t, sessions, tmp, prog, helperFiles, nA, nB, devEnv) {
 		return false
 	}
 
